@@ -18,6 +18,13 @@ Line protocol (tokens separated by single spaces)
   dir types=gate,chat names=g0,c0
   start <node> ... | <ev> ...      the real StartMember on an in-memory etcd: listing, then one response right
                                    after the watch opened, the first directory store being slow (obs stores=k final=<members>)
+  sys mode=member|client <node> ... | <step> ...   the real StartMember / StartClient on an in-memory etcd store holding the
+                                   nodes; steps: G~P~key~<node> / G~D~key (write between the listing and the creation of the watch),
+                                   W~P~key~<node> / W~D~key (write by some node / lease expiry), V (the watch hands over what is pending),
+                                   F (the watch fails; the loop opens a fresh one), S~st (UpdateClusterState), K (a keep-alive answer arrives)
+                                   (obs watches=k pubs=n final=<members>)
+  selfcluster name=c id=n0 host=h0 port=7000 svcs=g1,c1 cfg=g1:gate,c1:chat types=.. names=..
+                                   cluster disabled: InitSelf + BuildSelfClusterTopology + UpdateClusterTopology (obs pub=.. + dump)
   stress n=3000                    reader/updater smoke run (obs ok | mixed:<query> | panic)
   mk  types=.. names=.. M~<member> ...   member = id;host;port;state;svc,svc
 -/
@@ -132,6 +139,81 @@ def dump (d : Dir) (types names : List String) : String :=
   let wn := "WN=" ++ joinWith "," (sortStrings d.getWorkServiceNames)
   joinWith " " ([mem] ++ ts ++ wsl ++ ss ++ [wn])
 
+
+/-! ### the `sys` op: the provider in front of a store -/
+
+inductive Step
+  | gap (w : Wr) | write (w : Wr) | fail | deliver | state (st : Int) | ka | junk
+
+def parseWr : List String → Option Wr
+  | ["P", key, node] => (parseNode node).map (fun n => Wr.put (keyId key) n)
+  | ["D", key] => some (.del (keyId key))
+  | _ => none
+
+def parseStep (tok : String) : Step :=
+  if tok == "F" then .fail else if tok == "V" then .deliver else if tok == "K" then .ka else
+  match tok.splitOn "~" with
+  | "G" :: r => match parseWr r with | some w => .gap w | none => .junk
+  | "W" :: r => match parseWr r with | some w => .write w | none => .junk
+  | ["S", st] => match st.toInt? with | some n => .state n | none => .junk
+  | _ => .junk
+
+structure SysOp where
+  client : Bool
+  nodes : List Node
+  gaps : List Wr
+  steps : List Step
+
+def parseSys (ws : List String) (rest : List String) : Option SysOp :=
+  match kv ws "mode" with
+  | some mode =>
+    if mode != "member" && mode != "client" then none else
+    match splitBatches (rest.filter (fun w => !w.startsWith "mode=")) with
+    | [l, b] =>
+      match l.mapM parseNode with
+      | none => none
+      | some ns =>
+        let st := b.map parseStep
+        if st.any (fun x => match x with | .junk => true | _ => false) then none else
+        some { client := mode == "client", nodes := ns,
+               gaps := st.filterMap (fun x => match x with | .gap w => some w | _ => none),
+               steps := st.filter (fun x => match x with | .gap _ => false | _ => true) }
+    | _ => none
+  | none => none
+
+/-- run the model of the whole sequence; publications in order -/
+def sysModel (self : Node) (o : SysOp) : Sys × List (List Member) :=
+  let store0 := o.nodes.foldl (fun (st : AL Node) n => (storeStep st (.put n.id n)).1) []
+  let start : List SOp :=
+    [.fetch o.client] ++ o.gaps.map .write ++ [.openWatch] ++
+    -- StartMember: registerService, then keepAliveForever's own Put
+    (if o.client then [] else [.register])
+  -- `V` = everything pending: needs the state, so the run is folded here
+  let all : List (Option SOp) := start.map some ++ o.steps.map (fun x => match x with
+    | .write w => some (.write w) | .fail => some .fail | .state st => some (.setState st) | .ka => some .kaTick
+    | _ => none)
+  all.foldl (fun (acc : Sys × List (List Member)) op =>
+    let op' := match op with | some op => op | none => SOp.deliver acc.1.pending.length
+    let r := sstep acc.1 op'
+    (r.1, match r.2 with | some p => acc.2 ++ [p] | none => acc.2)) ({ store := store0, p := { self := self } }, [])
+
+
+/-- `InitSelf` for the `selfcluster` op: the node as `BuildSelfClusterTopology` describes it -/
+def selfOfSelfCluster (ws : List String) : Option Node := do
+  let name ← kv ws "name"
+  let id ← kv ws "id"
+  let host ← kv ws "host"
+  let port ← (kv ws "port").bind String.toInt?
+  let svcs ← kv ws "svcs"
+  let cfgs ← kv ws "cfg"
+  let cfg : AL String := (splitList "," cfgs).foldl (fun (m : AL String) e =>
+    match e.splitOn ":" with
+    | [n, t] => AL.set m n t
+    | _ => m) []
+  let port := if host == "nonhost" then -1 else port
+  pure { id := s!"{name}@{id}", host := host, addr := host, port := port,
+         services := makeFullNameServices (splitList "," svcs) cfg, alive := true, state := 0 }
+
 /-! ### mode `model` -/
 
 structure St where
@@ -169,6 +251,21 @@ def step (s : St) (line : String) : St × String :=
           (s, s!"stores={n} final=" ++ ((showPub final).drop 4).toString)
         | _, _ => (s, "bad-op")
       | _ => (s, "bad-op")
+  | "selfcluster" :: _ =>
+    match selfOfSelfCluster ws with
+    | none => (s, "bad-op")
+    | some self =>
+      let ms := selfTopology self
+      (s, showPub ms ++ " " ++ dump (makeMembers ms) (splitList "," ((kv ws "types").getD "")) (splitList "," ((kv ws "names").getD "")))
+  | "sys" :: rest =>
+    match s.self0 with
+    | none => (s, "noinit")
+    | some self =>
+      match parseSys ws rest with
+      | none => (s, "bad-op")
+      | some o =>
+        let r := sysModel self o
+        (s, s!"watches={r.1.watches} pubs={r.2.length} final=" ++ ((showPub (r.2.getLast?.getD [])).drop 4).toString)
   | "mk" :: rest =>
     let ms := parseMk rest
     let s' := { s with view := ms, ordered := true }
@@ -305,6 +402,100 @@ def specStep (s : Mon) (line : String) : Mon × String :=
           else if (kv (words obs) "final") == some ((showPub (publish m0)).drop 4).toString then
             (s, s!"VIOLATION C08/stale-initial-view the directory ends with {obs} (the listing alone), the listing and the delivered events imply final={want} | {op}")
           else (s, s!"VIOLATION C08/fold-differs-from-implied StartMember: the directory ends with {obs}, the listing and the delivered events imply final={want} | {op}")
+      | _, _ => (s, "ok")
+    | "selfcluster" :: _ =>
+      -- cluster disabled: one member (the node, working), and the directory of exactly that list
+      match obsPubs obs with
+      | [p] =>
+        let ms := parsePub p
+        match ms with
+        | [m] =>
+          let idOk := (do let name ← kv ws "name"; let id ← kv ws "id"; pure (m.id == s!"{name}@{id}")).getD false
+          -- its services: `type.name` for every local service with a config entry (last entry of a name counts)
+          let cfg := (splitList "," ((kv ws "cfg").getD "")).filterMap (fun e =>
+            match e.splitOn ":" with | [n, t] => some (n, t) | _ => none)
+          let want := (splitList "," ((kv ws "svcs").getD "")).filterMap (fun n =>
+            (cfg.reverse.find? (fun e => e.1 == n)).map (fun e => s!"{e.2}.{n}"))
+          if !idOk || m.state != workingState || m.services != want then (s, s!"VIOLATION C08/self-cluster-wrong {p} | {op}")
+          else match checkDump ms (splitList "," ((kv ws "types").getD "")) (splitList "," ((kv ws "names").getD "")) obs with
+            | some why => (s, s!"VIOLATION C08/directory-differs-from-members {why} | {op}")
+            | none => (s, "ok")
+        | _ => (s, s!"VIOLATION C08/self-cluster-wrong {p} | {op}")
+      | _ => (s, s!"VIOLATION C08/self-cluster-wrong no publication | {op}")
+    | "sys" :: rest =>
+      -- the provider in front of the store: (1) whatever was lost on the way, the last publication is
+      -- the listing ∪ self folded one event at a time with the events the watches handed over;
+      -- (2) when nothing was lost and nothing is pending, it is the store itself (∪ self)
+      match s.self0, parseSys ws rest with
+      | some self0, some o =>
+        let wrOk : Wr → Bool := fun w => match w with | .put k n => k == n.id && n.alive | .del _ => true
+        let wf := o.nodes.all (fun n => n.alive) && (o.nodes.map (·.id)).eraseDups.length == o.nodes.length &&
+          o.gaps.all wrOk && o.steps.all (fun x => match x with | .write w => wrOk w | _ => true)
+        let store0 := o.nodes.foldl (fun (st : AL Node) n => AL.set st n.id n) []
+        let listed := o.nodes.foldl (fun (m : AL Node) n => AL.set m n.id n) []
+        let m0 := if o.client then listed else AL.set listed self0.id self0
+        -- (store, lost something?) after the writes that fall between the listing and the watch
+        let g := o.gaps.foldl (fun (acc : AL Node × Bool) w =>
+          let r := storeStep acc.1 w; (r.1, acc.2 || r.2.isSome)) (store0, false)
+        -- StartMember registers the node (twice: registerService, keepAliveForever)
+        let reg : List Step := if o.client then [] else [.write (.put self0.id self0), .write (.put self0.id self0)]
+        -- `shown`: the member set at the last publication (the listing, every non-empty response)
+        -- a keep-alive answer with a dirty own state: the lease is revoked (etcd deletes the own key) and
+        -- the node registers again with its current state
+        let kaWrites (store : AL Node) (self : Node) : AL Node × List Ev :=
+          let r1 := storeStep store (.del self.id)
+          let r2 := storeStep r1.1 (.put self.id self)
+          (r2.1, r1.2.toList ++ r2.2.toList)
+        let fin := (reg ++ o.steps).foldl (fun (acc : AL Node × AL Node × List Ev × Node × Bool × AL Node × Bool) x =>
+          let (store, m, pend, self, lost, shown, dirt) := acc
+          match x with
+          | .write w => let r := storeStep store w; (r.1, m, pend ++ r.2.toList, self, lost, shown, dirt)
+          | .fail => (store, m, [], self, lost || !pend.isEmpty, shown, dirt)
+          | .deliver =>
+            let m' := pend.foldl (seqApply self.id) m
+            (store, m', [], self, lost, if pend.isEmpty then shown else m', dirt)
+          | .state st =>
+            let self' := { self with state := st }
+            (store, if o.client then m else AL.set m self.id self', pend, self', lost, shown, true)
+          | .ka =>
+            if o.client || !dirt then acc else
+            let r := kaWrites store self
+            (r.1, m, pend ++ r.2, self, lost, shown, false)
+          | _ => acc) (g.1, m0, [], self0, g.2, m0, false)
+        let (store, _, pend, self, lost, m, _) := fin
+        let want := ((showPub (publish m)).drop 4).toString
+        let got := kv (words obs) "final"
+        -- a provider that resumes its watches at the revision it has seen (losing nothing) is as good:
+        -- the same fold with the events of the gap handed over first and nothing dropped by a failure
+        let gapEvs := (o.gaps.foldl (fun (acc : AL Node × List Ev) w =>
+          let r := storeStep acc.1 w; (r.1, acc.2 ++ r.2.toList)) (store0, [])).2
+        let ideal := (reg ++ o.steps).foldl (fun (acc : AL Node × AL Node × List Ev × Node × AL Node × Bool) x =>
+          let (store, m, pend, self, shown, dirt) := acc
+          match x with
+          | .write w => let r := storeStep store w; (r.1, m, pend ++ r.2.toList, self, shown, dirt)
+          | .deliver =>
+            let m' := pend.foldl (seqApply self.id) m
+            (store, m', [], self, if pend.isEmpty then shown else m', dirt)
+          | .state st =>
+            let self' := { self with state := st }
+            (store, if o.client then m else AL.set m self.id self', pend, self', shown, true)
+          | .ka =>
+            if o.client || !dirt then acc else
+            let r := kaWrites store self
+            (r.1, m, pend ++ r.2, self, shown, false)
+          | _ => acc) (g.1, m0, gapEvs, self0, m0, false)
+        let wantIdeal := ((showPub (publish ideal.2.2.2.2.1)).drop 4).toString
+        if !wf then (s, "ok")
+        else if got == some wantIdeal then (s, "ok")
+        else if got != some want then
+          (s, s!"VIOLATION C08/fold-differs-from-implied the directory ends with {obs}, the listing and the events handed over imply final={want} | {op}")
+        else if !lost && pend.isEmpty then
+          let others (ms : List Member) := ms.filter (fun x => x.id != self.id)
+          let wantStore := ((showPub (others (publish store))).drop 4).toString
+          if ((showPub (others (publish m))).drop 4).toString != wantStore then
+            (s, s!"VIOLATION C08/directory-differs-from-store no event was lost and none is pending, the store holds {wantStore}, the directory {obs} | {op}")
+          else (s, "ok")
+        else (s, "ok")
       | _, _ => (s, "ok")
     | "mk" :: rest =>
       let ms := parseMk rest
